@@ -76,3 +76,27 @@ Theorem C06_candset_njobs :
   filter_candset_model dropped njobs cpus cand = Some (candset_split dropped cand).
 Proof. exact filter_candset_njobs_b. Qed.
 Print Assumptions C06_candset_njobs.
+
+(* tie of the pair-level path to the source: filter_pair of SizeFilter / PrefixFilter /
+   PositionFilter / OverlapFilter, as REGENERATED on this run (Gen/FilterPairGen.v: missing-value
+   test, tokenization, pair-level token ordering, prefix lengths, position loop, allow_empty /
+   allow_missing handling, comp_op lookup), returns exactly the verdict of the hand model
+   (Spec/FilterSpec.v model_filter_pair) -- no state may be kept on the filter object *)
+From SSJ Require Import FilterPairGen FilterPairRefineBase FilterPairRefine FilterPairRefinePos FilterPairRefineSpec FilterPairRefineArith.
+Theorem generated_filter_pair_refines_model :
+  ltac:(let t := type of filter_pair_gen_refines_model in exact t).
+Proof. exact filter_pair_gen_refines_model. Qed.
+Check generated_filter_pair_refines_model.
+Print Assumptions generated_filter_pair_refines_model.
+Theorem generated_position_filter_pair_jcd :
+  ltac:(let t := type of position_filter_pair_gen_jcd in exact t).
+Proof. exact position_filter_pair_gen_jcd. Qed.
+Print Assumptions generated_position_filter_pair_jcd.
+
+(* ---- tie: the per-chunk functions generated from the source (Gen/JoinGen.v, regenerated every
+   run) produce, up to a permutation, exactly the rows of the pairwise model + projection *)
+From SSJ Require Import JoinGen SplitRefineBase SplitRefineOverlapFilter SplitRefineOvc SplitRefineFilterBase SplitRefineFilterSize SplitRefineFilterPrefix SplitRefineFilterPosition SplitRefineFilters SplitRefineEd SplitRefineProj SplitRefineProjAll SplitRefineOvcArith.
+Theorem generated_overlap_filter_split_refines_model :
+  ltac:(let t := type of overlap_filter_tables_split_rows_refines_proj in exact t).
+Proof. exact overlap_filter_tables_split_rows_refines_proj. Qed.
+Print Assumptions generated_overlap_filter_split_refines_model.
